@@ -23,6 +23,7 @@ import (
 	"go/types"
 	"os"
 	"path/filepath"
+	"sort"
 	"strconv"
 	"strings"
 
@@ -160,6 +161,37 @@ func main() {
 			fmt.Fprintf(&sb, "%q, ", s)
 		}
 		sb.WriteString("})\n")
+		if !*plain {
+			// package-level variables: their initial values are restored before every execution
+			var gv []string
+			for _, f := range p.Syntax {
+				for _, d := range f.Decls {
+					gd, ok := d.(*ast.GenDecl)
+					if !ok || gd.Tok != token.VAR {
+						continue
+					}
+					for _, sp := range gd.Specs {
+						vs, ok := sp.(*ast.ValueSpec)
+						if !ok {
+							continue
+						}
+						for _, n := range vs.Names {
+							if n.Name != "_" && !strings.HasPrefix(n.Name, "_v") {
+								gv = append(gv, n.Name)
+							}
+						}
+					}
+				}
+			}
+			if len(gv) > 0 {
+				sort.Strings(gv)
+				fmt.Fprintf(&sb, "\nfunc init() {\n\tvrt.RegisterGlobals(")
+				for _, n := range gv {
+					fmt.Fprintf(&sb, "&%s, ", n)
+				}
+				sb.WriteString(")\n}\n")
+			}
+		}
 		dst := filepath.Join(*out, rel, "zz_vsites.go")
 		if err := os.WriteFile(dst, []byte(sb.String()), 0o644); err != nil {
 			fail(err)
